@@ -206,9 +206,21 @@ func c07StreamCycles(t *fw.T, shard, nshards int, emit func(*fw.Case)) {
 				for i := range kinds {
 					kinds[i] = (g + si + i) % 6
 				}
-				c := oneDocCase([]byte(macroDoc(nm, edges, site, kinds)), "", fmt.Sprintf("cyclic paste graph n=%d edges=%v site=%s", nm, edges, site))
+				text := macroDoc(nm, edges, site, kinds)
+				c := oneDocCase([]byte(text), "", fmt.Sprintf("cyclic paste graph n=%d edges=%v site=%s", nm, edges, site))
 				c.Meta = map[string]string{"expect": "recursion"}
 				emit(c)
+				if site == "none" {
+					// a file of macro definitions only - no JSIGHT, nothing else (a library meant to be included)
+					if i := strings.Index(text, "MACRO "); i >= 0 {
+						only := text[i:]
+						if j := strings.Index(only, "\nJSIGHT"); j < 0 && !strings.Contains(only, "\nGET ") && !strings.Contains(only, "\nTYPE ") {
+							c2 := oneDocCase([]byte(only), "", fmt.Sprintf("cyclic paste graph n=%d edges=%v, macros only", nm, edges))
+							c2.Meta = map[string]string{"expect": "recursion"}
+							emit(c2)
+						}
+					}
+				}
 			}
 		}
 	}
